@@ -1,5 +1,6 @@
 import CifModel.Lemmas.AnalyzeQuote
 import CifModel.Spec.Lexical
+import CifModel.Gen.NamesConsts
 /-
   Lemmas for C18_delim_reads_back: the conditions `cif_analyze_string` establishes (C18_delim_admissible, in the vocabulary of
   Spec/Analyze.lean and of the C) imply the admissibility predicates of the lexical grammar (Spec/Lexical.lean) under which
@@ -195,5 +196,143 @@ theorem render_presOf (d : Delim) (s : Str) (h : d ≠ .text) :
     the first line terminator being the one that ends the previous line) -/
 theorem render_text (s : Str) : 10 :: Spec.Lexical.renderValue .text s = Delim.text.units ++ s ++ Delim.text.units := by
   simp [Spec.Lexical.renderValue, Delim.units]
+
+/-! ### the length limit: `linesFit` from the line statistics -/
+
+theorem le_maxLen (l : Str) (ls : List Str) (h : l ∈ ls) : l.length ≤ maxLen ls := by
+  induction ls with
+  | nil => cases h
+  | cons a r ih =>
+    rw [maxLen_cons]
+    rcases List.mem_cons.mp h with rfl | h'
+    · omega
+    · have := ih h'; omega
+
+/-- a CR-free text whose first line fits behind column `col` and whose further lines (the last one excepted: it does not END
+    inside the text) fit a line has no over-long line ending inside it -/
+theorem linesFit_of_lines : ∀ (x : List Nat) (col : Nat) (l0 : Str) (ls : List Str), (∀ c ∈ x, c ≠ 13) → splitLines x = l0 :: ls →
+    (ls ≠ [] → col + l0.length ≤ 2048) → (∀ l ∈ ls.dropLast, l.length ≤ 2048) → Spec.Lexical.linesFit col x = true := by
+  intro x
+  induction x with
+  | nil => intro _ _ _ _ _ _ _; rfl
+  | cons c r ih =>
+    intro col l0 ls h13 hL h1 h2
+    have hc13 : c ≠ 13 := h13 c (by simp)
+    have hr13 : ∀ d ∈ r, d ≠ 13 := fun d hd => h13 d (List.mem_cons_of_mem _ hd)
+    have hA : ¬ (c = 13 ∧ r.head? = some 10) := fun h => hc13 h.1
+    obtain ⟨l0', ls', hr⟩ : ∃ a t, splitLines r = a :: t := by
+      cases h : splitLines r with
+      | nil => exact absurd h (splitLines_ne_nil r)
+      | cons a t => exact ⟨a, t, rfl⟩
+    unfold Spec.Lexical.linesFit
+    by_cases h10 : c = 10
+    · subst h10
+      have hL' : [] :: l0' :: ls' = l0 :: ls := by simpa [splitLines, hr] using hL
+      simp only [List.cons.injEq] at hL'
+      obtain ⟨rfl, rfl⟩ := hL'
+      have hcol : col ≤ 2048 := by have := h1 (by simp); simpa using this
+      simp only [if_true, hcol, decide_true, Bool.true_and]
+      refine ih 0 l0' ls' hr13 hr ?_ ?_
+      · intro hne
+        have : l0' ∈ (l0' :: ls').dropLast := by
+          cases ls' with
+          | nil => exact absurd rfl hne
+          | cons a t => simp [List.dropLast]
+        have := h2 l0' this; omega
+      · intro l hl
+        apply h2
+        cases ls' with
+        | nil => simp at hl
+        | cons a t => simp only [List.dropLast_cons_cons]; exact List.mem_cons_of_mem _ hl
+    · have hB : ¬ (c = 10 ∨ c = 13) := fun h => h.elim h10 hc13
+      have hL' : (c :: l0') :: ls' = l0 :: ls := by simpa [splitLines, hA, hB, hr, consHead] using hL
+      simp only [List.cons.injEq] at hL'
+      obtain ⟨rfl, rfl⟩ := hL'
+      simp only [h10, if_false]
+      refine ih _ l0' ls' hr13 hr ?_ h2
+      intro hne
+      have := h1 hne
+      simp only [List.length_cons] at this
+      split <;> omega
+
+/-- the lines of `x ++ t` when `t` holds no terminator: `t` extends the last line -/
+theorem splitLines_append_plain : ∀ (x t : List Nat), (∀ c ∈ x, c ≠ 13) → (∀ c ∈ t, c ≠ 10 ∧ c ≠ 13) →
+    splitLines (x ++ t) = (splitLines x).dropLast ++ [(splitLines x).getLastD [] ++ t] := by
+  intro x
+  induction x with
+  | nil => intro t _ ht; simp [splitLines_single t ht, splitLines]
+  | cons c r ih =>
+    intro t h13 ht
+    have hc13 : c ≠ 13 := h13 c (by simp)
+    have hr13 : ∀ d ∈ r, d ≠ 13 := fun d hd => h13 d (List.mem_cons_of_mem _ hd)
+    have := ih t hr13 ht
+    have hA : ∀ (y : List Nat), ¬ (c = 13 ∧ y.head? = some 10) := fun _ h => hc13 h.1
+    obtain ⟨a, b, hr⟩ : ∃ a b, splitLines r = a :: b := by
+      cases h : splitLines r with
+      | nil => exact absurd h (splitLines_ne_nil r)
+      | cons a b => exact ⟨a, b, rfl⟩
+    rw [hr] at this
+    by_cases h10 : c = 10
+    · subst h10
+      simp only [List.cons_append, splitLines, hA, if_false, true_or, if_true, this, hr]
+      cases b with
+      | nil => simp
+      | cons b0 bs => simp [List.dropLast, List.getLastD]
+    · have hB : ¬ (c = 10 ∨ c = 13) := fun h => h.elim h10 hc13
+      simp only [List.cons_append, splitLines, hA, hB, if_false, this, hr]
+      cases b with
+      | nil => simp [consHead]
+      | cons b0 bs => simp [consHead, List.dropLast, List.getLastD]
+
+/-- the lines of `t ++ y` when `t` holds no terminator: `t` is put in front of the first line -/
+theorem splitLines_prepend_plain : ∀ (t y : List Nat) (a : Str) (b : List Str), (∀ c ∈ t, c ≠ 10 ∧ c ≠ 13) → splitLines y = a :: b →
+    splitLines (t ++ y) = (t ++ a) :: b := by
+  intro t
+  induction t with
+  | nil => intro y a b _ h; simpa using h
+  | cons c r ih =>
+    intro y a b ht h
+    have hc := ht c (by simp)
+    have hA : ¬ (c = 13 ∧ (r ++ y).head? = some 10) := fun x => hc.2 x.1
+    have hB : ¬ (c = 10 ∨ c = 13) := fun x => x.elim hc.1 hc.2
+    simp only [List.cons_append, splitLines, hA, hB, if_false, ih y a b (fun d hd => ht d (List.mem_cons_of_mem _ hd)) h, consHead]
+
+/-- the line limit of the lexical grammar (`Spec.Lexical.linesFit`: 2048) is `CIF_LINE_LENGTH` as re-extracted from cif.h on every run -/
+theorem linesFit_limit_link (col : Nat) : Spec.Lexical.linesFit col [10] = decide (col ≤ Gen.NamesConsts.lineLength) := by
+  simp only [Spec.Lexical.linesFit, if_true, Bool.and_true]; rfl
+
+/-- a delimited presentation `δ s δ` (δ without terminators, `s` without CR) placed at column `col` holds no over-long line, provided
+    its first physical line fits behind `col` and every line of `s` fits a line -/
+theorem linesFit_presentation (δ s : List Nat) (col : Nat) (l0 : Str) (ls : List Str)
+    (hδ : ∀ c ∈ δ, c ≠ 10 ∧ c ≠ 13) (h13 : ∀ c ∈ s, c ≠ 13) (hL : splitLines s = l0 :: ls)
+    (hfirst : ls ≠ [] → col + δ.length + l0.length ≤ 2048) (hmax : ls ≠ [] → maxLen (l0 :: ls) ≤ 2048) :
+    Spec.Lexical.linesFit col (δ ++ s ++ δ) = true := by
+  have h1 := splitLines_append_plain s δ h13 hδ
+  rw [hL] at h1
+  have hP13 : ∀ c ∈ δ ++ (s ++ δ), c ≠ 13 := by
+    intro c hc
+    rcases List.mem_append.mp hc with h | h
+    · exact (hδ c h).2
+    · rcases List.mem_append.mp h with h | h
+      · exact h13 c h
+      · exact (hδ c h).2
+  rw [List.append_assoc]
+  cases ls with
+  | nil =>
+    simp only [List.dropLast_singleton, List.nil_append, List.getLastD] at h1
+    have h2 := splitLines_prepend_plain δ (s ++ δ) _ _ hδ h1
+    exact linesFit_of_lines _ col _ _ hP13 h2 (fun h => absurd rfl h) (fun l hl => by simp at hl)
+  | cons b bs =>
+    have e : (l0 :: b :: bs).dropLast = l0 :: (b :: bs).dropLast := by simp [List.dropLast]
+    rw [e, List.cons_append] at h1
+    have h2 := splitLines_prepend_plain δ (s ++ δ) _ _ hδ h1
+    refine linesFit_of_lines _ col _ _ hP13 h2 ?_ ?_
+    · intro _; have := hfirst (by simp); simp only [List.length_append]; omega
+    · intro l hl
+      rw [List.dropLast_concat] at hl
+      have hm := hmax (by simp)
+      have : l ∈ l0 :: b :: bs := List.mem_cons_of_mem _ (List.dropLast_subset _ hl)
+      have := le_maxLen l _ this
+      omega
 
 end CifModel.Lemmas.Analyze
